@@ -39,6 +39,20 @@ var Corpus = [][]string{
 	{"proxy p1 echo", "toxic p1 up l latency {\"latency\":1,\"jitter\":4611686018427387904}", "traffic p1 10 1"},
 }
 
+// Directed: histories aimed at state that survives a restart of a stub on a live connection
+// (must pass).
+var Directed = [][]string{
+	// limit_data lowered below what the connection has already carried, then more data
+	{"proxy p1 echo", "toxic p1 up t1 limit_data {\"bytes\":1000}", "hold p1 300", "retoxic p1 t1 {\"bytes\":5}", "more 50"},
+	{"proxy p1 echo", "toxic p1 down t1 limit_data {\"bytes\":1000}", "hold p1 300", "retoxic p1 t1 {\"bytes\":0}", "more 5000", "retoxic p1 t1 {\"bytes\":-1}", "more 1"},
+	// a timeout toxic updated while it is counting down; a slow_close updated while it delays a close
+	{"proxy p1 echo", "toxic p1 up t1 timeout {\"timeout\":200}", "hold p1 10", "retoxic p1 t1 {\"timeout\":0}", "more 10", "retoxic p1 t1 {\"timeout\":1}", "more 10"},
+	{"proxy p1 echo", "toxic p1 up t1 slow_close {\"delay\":200}", "halfclose p1 10", "retoxic p1 t1 {\"delay\":1}", "traffic p1 10 1"},
+	// slicer and bandwidth re-parametrised in mid-stream
+	{"proxy p1 echo", "toxic p1 up t1 slicer {\"average_size\":10,\"size_variation\":3,\"delay\":50}", "hold p1 2000", "retoxic p1 t1 {\"average_size\":1,\"size_variation\":0,\"delay\":0}", "more 400"},
+	{"proxy p1 echo", "toxic p1 up t1 bandwidth {\"rate\":1}", "hold p1 2000", "retoxic p1 t1 {\"rate\":0}", "more 400", "retoxic p1 t1 {\"rate\":100000}", "more 50"},
+}
+
 var wild = []string{"0", "-1", "1", "2", "7", "100", "-100", "2147483648", "4611686018427387903", "4611686018427387904",
 	"9223372036854775807", "-9223372036854775808", "92233720368547758", "92233720368547759", "1e3", "1.5", "\"x\"", "null", "true", "[1]", "{}", "99999999999999999999"}
 
@@ -57,6 +71,9 @@ func attrs(r *rng.R, ty string) string {
 		if ty == "slicer" && n == "delay" && r.Chance(3, 4) {
 			v = r.PickS("0", "1", "50")
 		}
+		if ty == "limit_data" && r.Chance(3, 4) {
+			v = r.PickS("0", "1", "5", "200", "1000", "100000")
+		}
 		if (ty == "latency" && n == "latency" || ty == "slow_close" || ty == "timeout" || ty == "reset_peer") && r.Chance(3, 4) {
 			v = r.PickS("0", "1", "20", "200")
 		}
@@ -65,7 +82,24 @@ func attrs(r *rng.R, ty string) string {
 	return "{" + strings.Join(fs, ",") + "}"
 }
 
+// updateUnderTraffic: a toxic, an open connection that has carried some bytes, updates of the
+// toxic's attributes (each restarts the stubs of the open connection, whose per-connection state
+// survives), more bytes on the same connection after each.
+func updateUnderTraffic(r *rng.R) []string {
+	types := []string{"limit_data", "limit_data", "latency", "bandwidth", "slicer", "slow_close", "timeout", "reset_peer"}
+	ty := types[r.Intn(len(types))]
+	ops := []string{"proxy p1 echo", fmt.Sprintf("toxic p1 %s t1 %s %s", r.PickS("up", "down"), ty, attrs(r, ty)),
+		fmt.Sprintf("hold p1 %d", r.Pick(1, 10, 100, 300, 2000))}
+	for k := 0; k < 1+r.Intn(3); k++ {
+		ops = append(ops, fmt.Sprintf("retoxic p1 t1 %s", attrs(r, ty)), fmt.Sprintf("more %d", r.Pick(1, 50, 400, 5000)))
+	}
+	return ops
+}
+
 func Episode(r *rng.R) []string {
+	if r.Chance(1, 4) {
+		return updateUnderTraffic(r)
+	}
 	ops := []string{"proxy p1 echo"}
 	if r.Chance(1, 3) {
 		ops = append(ops, "proxy p2 "+r.PickS("echo", "refuse"))
@@ -75,12 +109,31 @@ func Episode(r *rng.R) []string {
 	n := 4 + r.Intn(14)
 	nt := 0
 	stalled := false
+	tyOf := map[int]string{}
+	pOf := map[int]string{}
 	for i := 0; i < n; i++ {
+		if nt > 0 && !stalled && r.Chance(1, 7) {
+			// update a toxic while connections are open, then more data on them
+			k := 1 + r.Intn(nt)
+			if tyOf[k] != "bogus" {
+				ops = append(ops, fmt.Sprintf("retoxic %s t%d %s", pOf[k], k, attrs(r, tyOf[k])))
+				if r.Chance(2, 3) {
+					ops = append(ops, fmt.Sprintf("more %d", r.Pick(1, 50, 400, 5000)))
+				}
+				continue
+			}
+		}
+		if !stalled && r.Chance(1, 8) {
+			ops = append(ops, fmt.Sprintf("hold %s %d", pn(), r.Pick(1, 10, 100, 300, 2000)))
+			continue
+		}
 		switch x := r.Intn(20); {
 		case x < 6 && !stalled:
 			nt++
 			ty := types[r.Intn(len(types))]
-			ops = append(ops, fmt.Sprintf("toxic %s %s t%d %s %s", pn(), r.PickS("up", "down"), nt, ty, attrs(r, ty)))
+			tyOf[nt] = ty
+			pOf[nt] = pn()
+			ops = append(ops, fmt.Sprintf("toxic %s %s t%d %s %s", pOf[nt], r.PickS("up", "down"), nt, ty, attrs(r, ty)))
 		case x < 12:
 			ops = append(ops, fmt.Sprintf("traffic %s %d %d", pn(), r.Pick(1, 2, 14, 100, 101, 1000, 5000, 40000), r.Pick(1, 1, 2, 5)))
 		case x == 12:
@@ -112,6 +165,13 @@ func Sweep(e *Engine, tier string, seed uint64, res *report.Result) {
 	res.Rule = "E9: the real toxiproxy-server binary as a child process; random histories of toxics of every type with attribute values from a boundary set (zero, negative, int64 extremes, wrong kinds), traffic of several sizes and chunkings, resets, half-closes, non-reading peers, a refusing upstream, malformed and fuzzed API requests; after every operation: process alive, GET /version and GET /proxies answer within 2 s, every enabled proxy accepts; at the end: reset, echo through every proxy. Witnesses of repaired defects run first; histories of recorded findings run in a child of their own."
 	defer e.Close()
 	for _, c := range Corpus {
+		if f := e.Run(c, res); f != nil {
+			res.Failures = append(res.Failures, *f)
+			return
+		}
+	}
+	for _, c := range Directed {
+		e.stopChild()
 		if f := e.Run(c, res); f != nil {
 			res.Failures = append(res.Failures, *f)
 			return
